@@ -18,6 +18,8 @@ func main() {
 		devUnit(os.Args[2:])
 	case "check":
 		os.Exit(govc.CheckMain(os.Args[2:]))
+	case "selftest":
+		os.Exit(govc.SelfTestMain(os.Args[2:]))
 	default:
 		fmt.Fprintln(os.Stderr, "unknown command")
 		os.Exit(2)
